@@ -55,11 +55,20 @@ theorem cmtAfter_lp (R : List GCh) : cmtAfter false (.lp :: R) = cmtAfter false 
 
 /-! shapes of the operator paddings -/
 
+theorem eq_dropLast_of_getLast? {l : List GCh} {a : GCh} (h : l.getLast? = some a) : l = l.dropLast ++ [a] := by
+  have hne : l ≠ [] := by intro e; subst e; simp at h
+  have h2 := List.getLast?_eq_some_getLast hne
+  rw [h2] at h
+  have h3 := List.dropLast_concat_getLast hne
+  simp at h
+  rw [h] at h3
+  exact h3.symm
+
 theorem complOpr_shape {cs : List GCh} (h : complOpr cs = true) :
     ∃ S, cs = S ++ [.hash] ∧ isSep false S = true ∧ cmtAfter false S = false := by
   simp [complOpr] at h
   obtain ⟨⟨h1, h2⟩, h3⟩ := h
-  exact ⟨cs.dropLast, (List.dropLast_append_getLast? _ (by simp [h1])).symm, h2, h3⟩
+  exact ⟨cs.dropLast, eq_dropLast_of_getLast? h1, h2, h3⟩
 
 theorem unionOpr_shape {cs : List GCh} (h : unionOpr cs = true) :
     ∃ a b, cs = a ++ .colon :: b ∧ isSep false a = true ∧ cmtAfter false a = false ∧
@@ -109,5 +118,136 @@ theorem fmt_bin {o : BOp} {l r : HS} {g : GN} (ho : orderOK g [.left, .operator,
   rcases ho with ⟨h1, h2⟩ | ⟨h1, h2⟩
   · simp [HS.fmt, h1, h2, optFmt]
   · simp [HS.fmt, h1]
+
+end MontePyVerif.C02
+
+namespace MontePyVerif.C02
+open MontePyVerif.Spec.Geometry MontePyVerif.Geometry
+
+theorem cmtAfter_digVal {a v : Nat} {ds : List GCh} (h : digVal a ds = some v) : cmtAfter false ds = false := by
+  induction ds generalizing a with
+  | nil => rfl
+  | cons x xs ih =>
+    cases x <;> simp [digVal] at h
+    rw [cmtAfter_false_cons_ne (by simp)]; exact ih h
+
+theorem cmtAfter_tokVal {tok : List GCh} {r : Bool × Nat} (h : tokVal tok = some r) : cmtAfter false tok = false := by
+  match tok, h with
+  | .digit d :: cs, h =>
+    simp [tokVal] at h; obtain ⟨v, hv, _⟩ := h
+    rw [cmtAfter_false_cons_ne (by simp)]; exact cmtAfter_digVal hv
+  | .plus :: .digit d :: cs, h =>
+    simp [tokVal] at h; obtain ⟨v, hv, _⟩ := h
+    rw [cmtAfter_false_cons_ne (by simp), cmtAfter_false_cons_ne (by simp)]; exact cmtAfter_digVal hv
+  | .minus :: .digit d :: cs, h =>
+    simp [tokVal] at h; obtain ⟨v, hv, _⟩ := h
+    rw [cmtAfter_false_cons_ne (by simp), cmtAfter_false_cons_ne (by simp)]; exact cmtAfter_digVal hv
+
+theorem cmtAfter_cellVal {tok : List GCh} {v : Nat} (h : cellVal tok = some v) : cmtAfter false tok = false := by
+  match tok, h with
+  | .digit d :: cs, h =>
+    simp [cellVal] at h
+    rw [cmtAfter_false_cons_ne (by simp)]; exact cmtAfter_digVal h
+
+/-- a surface leaf -/
+theorem good_leaf {tok : List GCh} {neg : Bool} {d : Nat} {pad : List GCh}
+    (ht : tokVal tok = some (neg, d)) (hp : isSep false pad = true) : Good (tok ++ pad) [.num d neg] := by
+  have hc := cmtAfter_tokVal ht
+  have h1 : GoodFrom .none tok [.num d neg] :=
+    ⟨[], .digits neg d, by unfold StepsC; rw [hc]; exact tok_steps ht, trivial, rfl, by simp [hc]⟩
+  exact h1.sep (by rw [hc]; exact hp)
+
+/-- `#n`: the operator padding, the cell number, its padding, the end_pad -/
+theorem good_cell {S tok pad ep : List GCh} {d : Nat}
+    (hS : isSep false S = true) (hSc : cmtAfter false S = false) (ht : cellVal tok = some d)
+    (hp : isSep false pad = true) (he : isSep (cmtAfter false pad) ep = true) :
+    Good ((S ++ [.hash]) ++ ((tok ++ pad) ++ ep)) [.cell d] := by
+  have hc := cmtAfter_cellVal ht
+  have h1 : StepsC .none false S [] .none := sep_steps hS
+  have h2 : StepsC .none (cmtAfter false S) [.hash] [] .hash := by rw [hSc]; exact step_hash
+  have h12 := StepsC.trans h1 h2
+  have hc12 : cmtAfter false (S ++ [.hash]) = false := by rw [cmtAfter_append, hSc]; rfl
+  have h3 : StepsC .hash (cmtAfter false (S ++ [.hash])) tok [] (.hdigits d) := by
+    rw [hc12]; unfold StepsC; rw [hc]; exact celltok_steps ht
+  have h123 := StepsC.trans h12 h3
+  have hc123 : cmtAfter false (S ++ [.hash] ++ tok) = false := by rw [cmtAfter_append, hc12, hc]
+  have g1 : GoodFrom .none (S ++ [.hash] ++ tok) [.cell d] :=
+    ⟨_, .hdigits d, h123, trivial, by simp [ftoks], fun hh => by rw [hc123] at hh; cases hh⟩
+  have g2 := g1.sep (E := pad) (by rw [hc123]; exact hp)
+  have hc4 : cmtAfter false (S ++ [.hash] ++ tok ++ pad) = cmtAfter false pad := by
+    rw [cmtAfter_append, hc123]
+  have g3 := g2.sep (E := ep) (by rw [hc4]; exact he)
+  have e : S ++ [GCh.hash] ++ tok ++ pad ++ ep = (S ++ [.hash]) ++ ((tok ++ pad) ++ ep) := by simp
+  rw [← e]; exact g3
+
+/-- `#( … )`: the operator padding, a parenthesised link, the end_pad -/
+theorem good_compl {S R ep : List GCh} {tsR : List Tok}
+    (hS : isSep false S = true) (hSc : cmtAfter false S = false)
+    (hR : StepsC .none false R tsR .none) (he : isSep (cmtAfter false (.lp :: R)) ep = true) :
+    Good ((S ++ [.hash]) ++ ((.lp :: R) ++ ep)) (.clp :: tsR) := by
+  have h1 : StepsC .none false S [] .none := sep_steps hS
+  have h2 : StepsC .none (cmtAfter false S) [.hash] [] .hash := by rw [hSc]; exact step_hash
+  have h12 := StepsC.trans h1 h2
+  have hc12 : cmtAfter false (S ++ [.hash]) = false := by rw [cmtAfter_append, hSc]; rfl
+  have h3 : StepsC .hash (cmtAfter false (S ++ [.hash])) [.lp] [.clp] .none := by rw [hc12]; exact step_clp
+  have h123 := StepsC.trans h12 h3
+  have hc123 : cmtAfter false (S ++ [.hash] ++ [.lp]) = false := by rw [cmtAfter_append, hc12]; rfl
+  have h4 : StepsC .none (cmtAfter false (S ++ [.hash] ++ [.lp])) R tsR .none := by rw [hc123]; exact hR
+  have h1234 := StepsC.trans h123 h4
+  have hcw : cmtAfter false (S ++ [.hash] ++ [.lp] ++ R) = cmtAfter false (.lp :: R) := by
+    rw [cmtAfter_append, hc123, cmtAfter_lp]
+  have g1 : GoodFrom .none (S ++ [.hash] ++ [.lp] ++ R) (.clp :: tsR) :=
+    ⟨_, .none, h1234, trivial, by simp [ftoks], fun _ => rfl⟩
+  have g2 := g1.sep (E := ep) (by rw [hcw]; exact he)
+  have e : S ++ [GCh.hash] ++ [.lp] ++ R ++ ep = (S ++ [.hash]) ++ ((.lp :: R) ++ ep) := by simp
+  rw [← e]; exact g2
+
+/-- two operands with the padding of an intersection between them -/
+theorem good_inter {L R opr ep : List GCh} {kL kR : List Tok}
+    (gL : Good L kL) (hLc : cmtAfter false L = false) (gR : Good R kR)
+    (ho : isSep false opr = true) (hoc : cmtAfter false opr = false)
+    (hsepar : opr ≠ [] ∨
+      (∃ RL tsL, L = .lp :: RL ∧ kL = .lp :: tsL ∧ StepsC .none false RL tsL .none) ∨
+      (∃ RR tsR, R = .lp :: RR ∧ kR = .lp :: tsR ∧ StepsC .none false RR tsR .none))
+    (he : isSep (cmtAfter false R) ep = true) :
+    Good (L ++ (opr ++ (R ++ ep))) (kL ++ kR) := by
+  have gRE : GoodFrom .none (R ++ ep) kR := GoodFrom.sep gR he
+  rcases hsepar with hne | ⟨RL, tsL, hL, hk, hs⟩ | ⟨RR, tsR, hR, hk, hs⟩
+  · refine GoodFrom.seq1 gL hLc (fun p hp => ?_)
+    cases opr with
+    | nil => exact absurd rfl hne
+    | cons x xs =>
+      have := GoodFrom.seq2 (sep_steps_pending hp ho) hoc gRE
+      exact this
+  · subst hL; subst hk
+    have hL' : StepsC .none false (.lp :: RL) (.lp :: tsL) .none := by
+      simpa [ftoks] using paren_from (p := .none) trivial hs
+    have hmid : GoodFrom .none (opr ++ (R ++ ep)) kR := by
+      have := GoodFrom.seq2 (sep_steps ho : StepsC .none false opr [] .none) hoc gRE
+      simpa using this
+    exact GoodFrom.seq2 hL' hLc hmid
+  · subst hR; subst hk
+    refine GoodFrom.seq1 gL hLc (fun p hp => ?_)
+    have hfrom : StepsC p false (.lp :: RR) (ftoks p ++ .lp :: tsR) .none := paren_from hp hs
+    have hRE : GoodFrom p ((.lp :: RR) ++ ep) (ftoks p ++ .lp :: tsR) :=
+      GoodFrom.sep ⟨_, .none, hfrom, trivial, by simp [ftoks], fun _ => rfl⟩ he
+    cases opr with
+    | nil => simpa using hRE
+    | cons x xs =>
+      have := GoodFrom.seq2 (sep_steps_pending hp ho) hoc gRE
+      exact this
+
+/-- two operands with the padding of a union between them -/
+theorem good_union {L R a b ep : List GCh} {kL kR : List Tok}
+    (gL : Good L kL) (hLc : cmtAfter false L = false) (gR : Good R kR)
+    (ha : isSep false a = true) (hac : cmtAfter false a = false)
+    (hb : isSep false b = true) (hbc : cmtAfter false b = false)
+    (he : isSep (cmtAfter false R) ep = true) :
+    Good (L ++ ((a ++ .colon :: b) ++ (R ++ ep))) (kL ++ .colon :: kR) := by
+  have gRE : GoodFrom .none (R ++ ep) kR := GoodFrom.sep gR he
+  refine GoodFrom.seq1 gL hLc (fun p hp => ?_)
+  have hoc : cmtAfter false (a ++ .colon :: b) = false := by rw [cmtAfter_union_opr hac]; exact hbc
+  have := GoodFrom.seq2 (union_opr_steps hp ha hac hb) hoc gRE
+  simpa using this
 
 end MontePyVerif.C02
